@@ -13,6 +13,8 @@ import OnlVerif.Lemmas.ConserveBase
 
 variable {σ : Type}
 
+namespace Conserve
+
 /-! ## `keyLt` is a strict weak order -/
 
 theorem keyLt_iff (a b : ReqData ℚ) : keyLt a b = true ↔
@@ -685,3 +687,5 @@ theorem QSorted.of_empty (s : KState ℚ σ) (h : ∀ r, (s.res r).putQ = [] ∧
 theorem reach_queue (body : σ → Resume → Burst ℚ σ) (fuel : Nat) (s s' : KState ℚ σ) (hW : WF s)
     (hr : SafeReach body fuel s s') : GrantOrd s s' ∧ (QSorted s → QSorted s') :=
   (QueueRel.crel.reach body fuel s s' hW hr).2 hW
+
+end Conserve
